@@ -224,6 +224,11 @@ func execC16(x *X, scAny any) {
 		seq          int
 		at           time.Duration
 	}
+	var second struct {
+		bad         bool
+		detail, sig string
+		seq         int
+	}
 	s.Spawn("shutdown", func() {
 		if sc.ShutdownMs > 0 {
 			s.Sleep(time.Duration(sc.ShutdownMs) * time.Millisecond)
@@ -235,6 +240,14 @@ func execC16(x *X, scAny any) {
 			s.Spawn("shutdown2", func() {
 				s.YieldNow("shutdown2-dally")
 				_ = w.srv.Shutdown()
+				// the statement holds for every call of Shutdown that returns
+				if al := w.serverTasksAlive(); w.running != 0 || len(al) > 0 {
+					sig, full := aliveSummary(al)
+					second.bad = true
+					second.detail = fmt.Sprintf("handlers running=%d, goroutines alive: %s", w.running, full)
+					second.sig = sig
+				}
+				second.seq = w.seq
 			})
 		}
 		w.shutdown()
@@ -255,6 +268,17 @@ func execC16(x *X, scAny any) {
 	if !atReturn.taken {
 		x.Reportf("C16.shutdown-hangs", "shutdown", "Shutdown has not returned at quiescence (handlers running: %d; server tasks: %s)", w.running, taskList(w.serverTasksAlive()))
 		return
+	}
+	if second.bad {
+		x.Reportf("C16.second-shutdown-returns-early", "second", "a second, concurrent Shutdown returned while the server was still draining: %s", second.detail)
+	}
+	if second.seq > 0 {
+		for _, ev := range w.trace {
+			if ev.Kind == "start" && ev.Seq > second.seq {
+				x.Reportf("C16.handler-started-after-return", "late-handler-second", "handler %s started after the second Shutdown call had returned", ev.ID)
+				break
+			}
+		}
 	}
 	if atReturn.listenerOpen {
 		x.Reportf("C16.listener-open", "listener", "listener still open when Shutdown returned")
